@@ -41,6 +41,13 @@ class Accumulator(Module):
         self._pos_cache = cache(calc_pos)
         self._neg_cache = cache(calc_neg)
 
+        # loading a state dictionary overwrites pending parts in place: drop cached reductions
+        def sdhook(module, incompatible_keys) -> None:
+            module._pos_cache.cache_clear()
+            module._neg_cache.cache_clear()
+
+        self.register_load_state_dict_post_hook(sdhook)
+
     @property
     def pos(self) -> torch.Tensor | None:
         r"""Positive update component.
